@@ -269,7 +269,7 @@ def check(prop, cfg, tier, seed, replay=None):
         "wall_s": round(time.time() - t0, 2),
         "violations": (1 if violation else 0),
     }
-    C.write_evidence(prop, ev)
+    C.write_evidence(prop, ev, scratch=bool(replay))   # a --replay run does not describe the check's coverage
     for ln in lines:
         print(ln, flush=True)
     if not violation:
